@@ -280,6 +280,13 @@ def jobs(tier, seed):
     return js
 
 
+
+def extra_checks(tier, seed):
+    """second engine (CrossHair) on the function-level harnesses of xh.xh_c09"""
+    from symx import xh
+    return xh.run('xh.xh_c09', tier)
+
+
 META = {
     'rule': 'one case = one feasible path of a port workload (sizes, gaps, qlimit symbolic); non-trivial = a packet '
             'was dropped, or >= 2 accepted, or a monitor sample saw a non-empty port, or a RED draw was made',
